@@ -49,6 +49,24 @@ pub fn run_marwood(forms: &[Cell]) -> Vec<MwForm> {
     forms.iter().map(|f| run_form(&mut vm, f)).collect()
 }
 
+/// When non-zero, the second of the two fresh-VM runs of check_session forces a collection every
+/// this-many instructions (set by the C05 engine): collections must not be observable either.
+pub static SECOND_RUN_COLLECTS_EVERY: std::sync::atomic::AtomicU64 = std::sync::atomic::AtomicU64::new(0);
+
+pub fn run_marwood_collecting(forms: &[Cell], every: u64) -> Vec<MwForm> {
+    let mut vm = MwVm::new();
+    let mut left: u64 = 200_000;
+    vm.vm.verif_set_gc_schedule(Some(Box::new(move |_vm, instr| {
+        if left > 0 && instr % every == 0 {
+            left -= 1;
+            true
+        } else {
+            false
+        }
+    })));
+    forms.iter().map(|f| run_form(&mut vm, f)).collect()
+}
+
 fn same_mw(a: &MwForm, b: &MwForm) -> bool {
     let out_same = a.output.len() == b.output.len() && a.output.iter().zip(b.output.iter()).all(|(x, y)| x.0 == y.0 && x.1 == y.1);
     let o = match (&a.outcome, &b.outcome) {
@@ -270,7 +288,13 @@ pub fn check_session(sess: &Session, rep: &mut Report, case: (u64, u64), verbose
     }
     // same outcome in every fresh VM instance
     let a = run_marwood(&sess.forms);
-    let b = run_marwood(&sess.forms);
+    let every = SECOND_RUN_COLLECTS_EVERY.load(std::sync::atomic::Ordering::Relaxed);
+    let b = if every > 0 && case.1 % 2 == 0 {
+        rep.count("second_fresh_vm_run_with_forced_collections", 1);
+        run_marwood_collecting(&sess.forms, 1 + (case.1 / 2) % every)
+    } else {
+        run_marwood(&sess.forms)
+    };
     for (i, (x, y)) in a.iter().zip(b.iter()).enumerate() {
         if !same_mw(x, y) {
             rep.violation(
